@@ -1239,7 +1239,6 @@ package larking
 // (header names are case-insensitive: a metadata key spelled Grpc-Status is the
 // protocol's grpc-status)
 //@ func setOutgoingHeader serves C14 partial ghost make
-//@   assert at "header[textproto.CanonicalMIMEHeaderKey(k)] = vs" [reserved-keys-not-forgeable C14] !ProtocolKey(k)
 //@   assert at "header[textproto.CanonicalMIMEHeaderKey(k)] = vs" [reserved-keys-not-forgeable-in-any-case C14] !ProtocolKey(StrLower(k))
 //@   witness verifWitnessMixedCaseReserved for reserved-keys-not-forgeable-in-any-case
 //@ func newIncomingContext serves C14 partial ghost make nil
